@@ -78,8 +78,8 @@ type state struct {
 	Tick   int64    `json:"tick"`
 	Sqrt   big      `json:"sqrt"`
 	Liq    big      `json:"liq"`
-	CurLo  big      `json:"curLo"` // TickToSqrtPrice(tick)
-	CurHi  big      `json:"curHi"` // TickToSqrtPrice(tick+1)
+	CurLo  big      `json:"curLo"` // sqrt price of the lower edge of the current tick's spacing cell
+	CurHi  big      `json:"curHi"` // sqrt price of its upper edge (0: outside the tick range)
 	Pos    []posSt  `json:"pos"`
 	Ticks  []tickSt `json:"ticks"`
 	Index  [][]int  `json:"index"`   // per user: position ids reported by GetUserPositions
@@ -154,12 +154,19 @@ func (w *world) snapshot(ctx sdk.Context) state {
 	p := w.pool(ctx)
 	st := state{T: ms(ctx.BlockTime(), w.t0), Tick: p.GetCurrentTick(), Sqrt: apphelp.BigBD(p.GetCurrentSqrtPrice()),
 		Liq: apphelp.BigD(p.GetLiquidity()), LastUp: ms(p.GetLastLiquidityUpdate(), w.t0)}
-	if lo, err := clmath.TickToSqrtPrice(st.Tick); err == nil {
+	// edges of the SPACING CELL of the current tick: position boundaries live on the spacing grid, and the
+	// pool rounds its initial tick down to the grid, so "price and tick agree about every position that
+	// exists or can be created" <=> the price lies in [sqrt(cellLo), sqrt(cellLo + spacing)]
+	cell := st.Tick / w.space * w.space
+	if st.Tick < 0 && st.Tick%w.space != 0 {
+		cell -= w.space
+	}
+	if lo, err := clmath.TickToSqrtPrice(cell); err == nil {
 		st.CurLo = apphelp.BigBD(lo)
 	} else {
 		st.CurLo = tracelog.EncInt64(0)
 	}
-	if hi, err := clmath.TickToSqrtPrice(st.Tick + 1); err == nil {
+	if hi, err := clmath.TickToSqrtPrice(cell + w.space); err == nil {
 		st.CurHi = apphelp.BigBD(hi)
 	} else {
 		st.CurHi = tracelog.EncInt64(0)
@@ -596,10 +603,24 @@ func recordHistory(t *testing.T, tw *tracelog.Writer, seed int64, nops, drainEve
 			} else {
 				a0 = base.Mul(pow10(-pexp))
 			}
+			// the initial price is usually NOT a power of ten: its tick is then off the spacing grid
+			if rng.Intn(4) != 0 {
+				a0 = a0.MulRaw(int64(1000 + rng.Intn(9000))).QuoRaw(1000)
+				a1 = a1.MulRaw(int64(1000 + rng.Intn(9000))).QuoRaw(1000)
+				if !a0.IsPositive() {
+					a0 = osmomath.OneInt()
+				}
+				if !a1.IsPositive() {
+					a1 = osmomath.OneInt()
+				}
+			}
 			lo, hi = roundSp(types.MinInitializedTick), roundSp(types.MaxTick)
 			if rng.Intn(2) == 0 {
 				// concentrated around the initial price: the price tick is pexp * 9e6
 				c := int64(pexp) * 9000000
+				if pt, err := clmath.CalculatePriceToTick(osmomath.NewBigDecFromBigInt(a1.BigInt()).Quo(osmomath.NewBigDecFromBigInt(a0.BigInt()))); err == nil {
+					c = pt
+				}
 				wd := int64(1+rng.Intn(200)) * w.space
 				lo, hi = roundSp(c-wd), roundSp(c+wd)
 			}
@@ -873,15 +894,18 @@ func recordHistory(t *testing.T, tw *tracelog.Writer, seed int64, nops, drainEve
 		// boundary targeting: the exact input that consumes 1-3 whole buckets (the swap then stops
 		// exactly on an initialised tick), and its neighbours one unit below / above
 		if rng.Intn(5) == 0 {
-			if maxIn, maxOut, err := k.ComputeMaxInAmtGivenMaxTicksCrossed(w.Ctx, w.poolID, din, uint64(1+rng.Intn(3))); err == nil {
-				base := maxIn.Amount
-				if !exactIn {
-					base = maxOut.Amount
+			func() {
+				defer func() { recover() }() // only used to pick an amount; may panic on a broken tree
+				if maxIn, maxOut, err := k.ComputeMaxInAmtGivenMaxTicksCrossed(w.Ctx, w.poolID, din, uint64(1+rng.Intn(3))); err == nil {
+					base := maxIn.Amount
+					if !exactIn {
+						base = maxOut.Amount
+					}
+					if base.IsPositive() {
+						amt = base.AddRaw(int64(rng.Intn(3) - 1))
+					}
 				}
-				if base.IsPositive() {
-					amt = base.AddRaw(int64(rng.Intn(3) - 1))
-				}
-			}
+			}()
 		}
 		if !amt.IsPositive() {
 			amt = osmomath.OneInt()
@@ -943,6 +967,9 @@ func recordHistory(t *testing.T, tw *tracelog.Writer, seed int64, nops, drainEve
 			outAmt := osmomath.NewIntFromBigInt(new(stdbig.Int).Sub(tracelog.DecBig(post.UserB[who][oi]), tracelog.DecBig(pre.UserB[who][oi])))
 			var back osmomath.Int
 			bo := w.Peek(func(ctx sdk.Context) error {
+				if !outAmt.IsPositive() {
+					return fmt.Errorf("nothing was paid out (%s)", outAmt)
+				}
 				p2 := w.pool(ctx)
 				var err error
 				back, err = k.SwapExactAmountIn(ctx, w.users[who], p2, sdk.NewCoin(dout, outAmt), din, osmomath.OneInt(), w.f)
